@@ -1,7 +1,169 @@
 /- Helper lemmas for C17. -/
 import SigV4.Model.Observe
 import SigV4.Spec.ValidateSpec
+import SigV4.Lemmas.C14
 
 namespace SigV4
+
+/-- `validateDebug` in terms of `authOf`. -/
+theorem validateDebug_eq {σ : Type} (H : Bytes → Bytes) (cfg : Config) (P : Provider σ) (s : σ)
+    (req : Request) :
+    validateDebug H cfg P s req =
+      match authOf H cfg req with
+      | .ok a =>
+        match prevalidate a cfg.region cfg.service cfg.now with
+        | .ok () =>
+          match stringToSign a with
+          | .ok _ => getSigningKeyDebug P s (providerReqOf a cfg.region cfg.service)
+          | _ => []
+        | _ => []
+      | _ => [] := by
+  unfold validateDebug authOf
+  cases fromRequestParts H cfg.opts cfg.other req <;> rfl
+
+theorem validateDebug_of_authOf_ok {σ : Type} (H : Bytes → Bytes) (cfg : Config) (P : Provider σ)
+    (s : σ) (req : Request) (a : Authenticator) (sts : Bytes) (ha : authOf H cfg req = .ok a)
+    (hp : prevalidate a cfg.region cfg.service cfg.now = .ok ()) (hs : stringToSign a = .ok sts) :
+    validateDebug H cfg P s req = getSigningKeyDebug P s (providerReqOf a cfg.region cfg.service) := by
+  rw [validateDebug_eq]
+  simp only [ha, hp, hs]
+
+/-- The outcome of the post-provider comparison. -/
+def sigOut (H : Bytes → Bytes) (a : Authenticator) (sts : Bytes) (o : Outcome ProviderResp) :
+    Outcome ProviderResp :=
+  match o with
+  | .err k => .err k
+  | .panic p => .panic p
+  | .ok resp =>
+    if a.signature = hexLower (hmac H resp.key sts) then .ok resp
+    else .err .SignatureDoesNotMatch
+
+/-- One validation, split into the provider-free part and the provider part, uniformly in the
+provider. -/
+theorem validate_split (H : Bytes → Bytes) (cfg : Config) (req : Request) :
+    (∃ o : Outcome Returned, (∀ r, o ≠ .ok r) ∧
+      ∀ (σ : Type) (P : Provider σ) (s : σ),
+        validate H cfg P s req = { out := o, state := s, calls := [] } ∧
+        validateDebug H cfg P s req = []) ∨
+    (∃ a fp sts, authOf H cfg req = .ok a ∧
+      fromRequestParts H cfg.opts cfg.other req = .ok fp ∧
+      prevalidate a cfg.region cfg.service cfg.now = .ok () ∧ stringToSign a = .ok sts ∧
+      ∀ (σ : Type) (P : Provider σ) (s : σ),
+        validate H cfg P s req =
+          finish req fp
+            { out := sigOut H a sts (getSigningKey P s a cfg.region cfg.service).out,
+              state := (getSigningKey P s a cfg.region cfg.service).state,
+              calls := (getSigningKey P s a cfg.region cfg.service).calls } ∧
+        validateDebug H cfg P s req =
+          getSigningKeyDebug P s (providerReqOf a cfg.region cfg.service)) := by
+  rcases authOf_cases H cfg req with ⟨a, ha⟩ | ⟨k, hk⟩ | ⟨p, hp⟩
+  · cases hpre : prevalidate a cfg.region cfg.service cfg.now with
+    | ok u =>
+      cases u
+      obtain ⟨sts, hsts⟩ := stringToSign_ok_of_prevalidate hpre
+      obtain ⟨fp, hfp, _, _⟩ := validate_of_authOf_ok H cfg (⟨fun s => (none, s), fun s _ => (.error .foreign, s)⟩ : Provider Unit) () req a ha
+      refine .inr ⟨a, fp, sts, ha, hfp, hpre, hsts, ?_⟩
+      intro σ P s
+      obtain ⟨fp', hfp', _, hv⟩ := validate_of_authOf_ok H cfg P s req a ha
+      rw [hfp] at hfp'
+      cases hfp'
+      refine ⟨?_, validateDebug_of_authOf_ok H cfg P s req a sts ha hpre hsts⟩
+      rw [hv, validateSignature_of_prevalidate_ok H P s a _ _ _ sts hpre hsts]
+      rfl
+    | err k =>
+      refine .inl ⟨.err k, ⟨fun r h => (by cases h), ?_⟩⟩
+      intro σ P s
+      obtain ⟨fp, _, _, hv⟩ := validate_of_authOf_ok H cfg P s req a ha
+      rw [hv, validateSignature_prevalidate_err H P s a _ _ _ k hpre, validateDebug_eq]
+      simp only [ha, hpre]
+      exact ⟨rfl, trivial⟩
+    | panic p =>
+      refine .inl ⟨.panic p, ⟨fun r h => (by cases h), ?_⟩⟩
+      intro σ P s
+      obtain ⟨fp, _, _, hv⟩ := validate_of_authOf_ok H cfg P s req a ha
+      rw [hv, validateSignature_prevalidate_panic H P s a _ _ _ p hpre, validateDebug_eq]
+      simp only [ha, hpre]
+      exact ⟨rfl, trivial⟩
+  · refine .inl ⟨.err k, ⟨fun r h => (by cases h), ?_⟩⟩
+    intro σ P s
+    rw [validate_of_authOf_err H cfg P s req k hk, validateDebug_eq]
+    simp only [hk]
+    exact ⟨trivial, trivial⟩
+  · refine .inl ⟨.panic p, ⟨fun r h => (by cases h), ?_⟩⟩
+    intro σ P s
+    rw [validate_of_authOf_panic H cfg P s req p hp, validateDebug_eq]
+    simp only [hp]
+    exact ⟨trivial, trivial⟩
+
+/-- Full case analysis of `getSigningKey` together with its debug records. -/
+theorem getSigningKey_debug_cases {σ : Type} (P : Provider σ) (s : σ) (a : Authenticator)
+    (region service : Bytes) :
+    (∃ e, (P.ready s).1 = some e ∧
+      getSigningKey P s a region service =
+        { out := .err e.toKind, state := (P.ready s).2, calls := [] } ∧
+      getSigningKeyDebug P s (providerReqOf a region service) =
+        [{ site := "auth.rs:267", err := e }]) ∨
+    ((P.ready s).1 = none ∧ ∃ e,
+      (P.call (P.ready s).2 (providerReqOf a region service)).1 = .error e ∧
+      getSigningKey P s a region service =
+        { out := .err e.toKind,
+          state := (P.call (P.ready s).2 (providerReqOf a region service)).2,
+          calls := [providerReqOf a region service] } ∧
+      getSigningKeyDebug P s (providerReqOf a region service) =
+        [{ site := "auth.rs:267", err := e }]) ∨
+    ((P.ready s).1 = none ∧ ∃ resp,
+      (P.call (P.ready s).2 (providerReqOf a region service)).1 = .ok resp ∧
+      getSigningKey P s a region service =
+        { out := .ok resp,
+          state := (P.call (P.ready s).2 (providerReqOf a region service)).2,
+          calls := [providerReqOf a region service] } ∧
+      getSigningKeyDebug P s (providerReqOf a region service) = []) := by
+  rcases hr : P.ready s with ⟨_ | e, s'⟩
+  · rcases hc : P.call s' (providerReqOf a region service) with ⟨e | resp, s''⟩
+    · refine .inr (.inl ⟨rfl, e, rfl, getSigningKey_call_err P s s' s'' a region service e hr hc, ?_⟩)
+      unfold getSigningKeyDebug
+      simp only [hr, hc]
+    · refine .inr (.inr ⟨rfl, resp, rfl, getSigningKey_call_ok P s s' s'' a region service resp hr hc, ?_⟩)
+      unfold getSigningKeyDebug
+      simp only [hr, hc]
+  · refine .inl ⟨e, rfl, getSigningKey_not_ready P s s' a region service e hr, ?_⟩
+    unfold getSigningKeyDebug
+    simp only [hr]
+
+/-- Two providers alike up to key bytes: `getSigningKey` agrees on everything but the key. -/
+theorem getSigningKey_sameUpToKey {σ : Type} (P P' : Provider σ) (s : σ) (a : Authenticator)
+    (region service : Bytes)
+    (h1 : ∀ st, P.ready st = P'.ready st)
+    (h2 : ∀ st pr, (P.call st pr).2 = (P'.call st pr).2)
+    (h3 : ∀ st pr, match (P.call st pr).1, (P'.call st pr).1 with
+      | .ok r, .ok r' => r.identity = r'.identity
+      | .error e, .error e' => e = e'
+      | _, _ => False) :
+    (getSigningKey P s a region service).calls = (getSigningKey P' s a region service).calls ∧
+    (getSigningKey P s a region service).state = (getSigningKey P' s a region service).state ∧
+    getSigningKeyDebug P s (providerReqOf a region service) =
+      getSigningKeyDebug P' s (providerReqOf a region service) ∧
+    ((∃ k, (getSigningKey P s a region service).out = .err k ∧
+        (getSigningKey P' s a region service).out = .err k) ∨
+     (∃ r r', (getSigningKey P s a region service).out = .ok r ∧
+        (getSigningKey P' s a region service).out = .ok r' ∧ r.identity = r'.identity)) := by
+  rcases getSigningKey_debug_cases P s a region service with
+    ⟨e, hr, hg, hd⟩ | ⟨hr, e, hc, hg, hd⟩ | ⟨hr, resp, hc, hg, hd⟩ <;>
+  rcases getSigningKey_debug_cases P' s a region service with
+    ⟨e', hr', hg', hd'⟩ | ⟨hr', e', hc', hg', hd'⟩ | ⟨hr', resp', hc', hg', hd'⟩ <;>
+  rw [← h1] at hr' <;> (try (rw [hr] at hr'; cases hr'))
+  · rw [hg, hg', hd, hd', ← h1]
+    exact ⟨rfl, rfl, rfl, .inl ⟨_, rfl, rfl⟩⟩
+  all_goals
+    rw [← h1] at hc' hg'
+    have h2' := h2 (P.ready s).2 (providerReqOf a region service)
+    have h3' := h3 (P.ready s).2 (providerReqOf a region service)
+    rw [hc, hc'] at h3'
+    simp only at h3'
+  · subst h3'
+    rw [hg, hg', hd, hd', h2']
+    exact ⟨rfl, rfl, rfl, .inl ⟨_, rfl, rfl⟩⟩
+  · rw [hg, hg', hd, hd', h2']
+    exact ⟨rfl, rfl, rfl, .inr ⟨_, _, rfl, rfl, h3'⟩⟩
 
 end SigV4
